@@ -196,7 +196,7 @@ def model_line(c, fixbits, checked, table):
     else:
         mode = "-"
         shps = [shape(t) for t in c.get("rt", [])]
-        shp = None if any(s is None for s in shps) else (";".join(shps) or "-")
+        shp = None if any(s is None for s in shps) else ("+".join(shps) or "-")
     if shp is None:
         return None
     return " ".join([ent, mode, fixbits, checked, c["hex"] or "-", shp] + table)
